@@ -171,7 +171,7 @@ def find_none_guard_memo(r: Resolver, ci: ClassInfo) -> List[MemoPattern]:
                                     caches.append(a)
                         srcs |= fields_read(s2.value, me)
                 if c0 in caches and srcs:
-                    out.append(MemoPattern(ci, "none-guard", f, None, caches, srcs - set(caches), st))
+                    out.append(MemoPattern(ci, "none-guard", f, c0, caches, srcs - set(caches), st))
     return out
 
 
@@ -247,12 +247,14 @@ class _MemoFlow(Flow):
                         invalid, fresh = True, False
                     else:
                         invalid = False
-                if fld in pat.caches and how == "assign":
+                if pat.kind == "none-guard" and fld == pat.flag and how == "assign":
                     v = n.value if isinstance(n, (ast.Assign, ast.AnnAssign)) else None
-                    if pat.kind == "none-guard" and isinstance(v, ast.Constant) and v.value is None:
+                    if isinstance(v, ast.Constant) and v.value is None:
                         invalid, fresh = True, False
                     else:
                         invalid = False
+                elif pat.kind == "dirty-flag" and fld in pat.caches and how == "assign":
+                    invalid = False
         return (written, invalid, fresh)
 
     def transfer(self, st, s):
